@@ -3,7 +3,7 @@
    "count", of the invocation history).  Used only by the correspondence check. *)
 From Coq Require Import ZArith List Bool String.
 From Common Require Import Str Cases.
-From Rpc Require Import Json JsonRpc.
+From Rpc Require Import Json Models JsonRpc.
 Import ListNotations.
 Open Scope Z_scope.
 
@@ -31,12 +31,18 @@ Definition corr_call (l : log) (e : entry) (p : params) : call_result :=
   else if str_eqb n (lit "uns") then CallUnserializable
   else CallOk fixed_result.
 
+Definition corr_pok (p : params) : bool :=
+  match p with
+  | PList l => params_decodable lax_int_corr l
+  | PDict d => params_decodable lax_int_corr (map snd d)
+  end.
+
 (* one case: mount table, input, the implementation's outcome and invocation log *)
 Definition case := (mounts * input * outcome * log)%type.
 
 Definition case_ok (v : version) (c : case) : bool :=
   let '(ms, i, o, l) := c in
-  let '(o', l') := handle_json v ms corr_call i in
+  let '(o', l') := handle_json v corr_pok ms corr_call i in
   outcome_eqb o' o && list_eqb entry_eqb l' l.
 
 (* monitors evaluated on the implementation's own outcome *)
@@ -61,5 +67,5 @@ Definition endpoint_out_eqb (a b : endpoint_out) : bool :=
 
 Definition ep_case_ok (v : version) (c : ep_case) : bool :=
   let '(ms, empty, utf8_ok, i, o, l) := c in
-  let '(o', l') := endpoint v ms corr_call empty utf8_ok i in
+  let '(o', l') := endpoint v corr_pok ms corr_call empty utf8_ok i in
   endpoint_out_eqb o' o && list_eqb entry_eqb l' l.
